@@ -308,6 +308,108 @@ class ItemSpec:
         self.slice = None
 
 
+def find_or_arms(sf, lo, hi):
+    """Rule R3 helper: match arms in st[lo:hi] whose pattern is an or-pattern `A | B | C => body` (no guard).
+    Returns a list of dicts(p0, e, alts, b0, b1) of token indices."""
+    st, m = sf.st, sf.m
+    arms = []
+    i = lo
+    while i < hi:
+        if st[i].text == '=>':
+            j = i - 1
+            while j >= lo:
+                tx = st[j].text
+                if tx in (')', ']', '}'):
+                    k = m[j]
+                    if tx == '}' and st[k - 1].text == '=>':
+                        break
+                    j = k - 1
+                    continue
+                if tx in (',', '{'):
+                    break
+                j -= 1
+            p0 = j + 1
+            k = p0
+            alt_start = p0
+            alts = []
+            has_guard = False
+            while k < i:
+                tx = st[k].text
+                if tx in OPEN:
+                    k = m[k] + 1
+                    continue
+                if tx == 'if':
+                    has_guard = True
+                    break
+                if tx == '|':
+                    alts.append((alt_start, k - 1))
+                    alt_start = k + 1
+                k += 1
+            if not has_guard:
+                alts.append((alt_start, i - 1))
+            if len(alts) > 1 and not has_guard:
+                b0 = i + 1
+                if st[b0].text == '{':
+                    b1 = m[b0]
+                    e = b1
+                    if st[e + 1].text == ',':
+                        e += 1
+                else:
+                    k = b0
+                    while True:
+                        tx = st[k].text
+                        if tx in OPEN:
+                            k = m[k] + 1
+                            continue
+                        if tx == ',' or tx == '}':
+                            break
+                        k += 1
+                    b1 = k - 1
+                    e = k if st[k].text == ',' else k - 1
+                arms.append({'p0': p0, 'e': e, 'alts': alts, 'b0': b0, 'b1': b1, 'subs': []})
+                # nested or-arms inside this arm's body are not split separately
+                i = e + 1
+                continue
+        i += 1
+    return arms
+
+
+def render_or_arms(sf, ed, arms):
+    st = sf.st
+    for a in arms:
+        src = sf.src
+        # body text with the nested token-level rewrites applied
+        body = ''
+        cur = st[a['b0']].start
+        tags = ['R3']
+        for (s0, s1, newtxt, tag) in sorted(a['subs']):
+            body += src[cur:s0] + newtxt
+            cur = s1
+            tags.append(tag)
+        body += src[cur:st[a['b1']].end]
+        new = ' '.join('%s => %s,' % (src[st[x0].start:st[x1].end], body) for x0, x1 in a['alts'])
+        ed.rw(st[a['p0']].start, st[a['e']].end, new, '+'.join(sorted(set(tags))))
+
+
+def apply_rws(sf, ed, spec, lo_rw, hi_rw, arms=()):
+    st = sf.st
+    for tag, count, orig, new in spec.rws:
+        texts = plain_texts(orig)
+        hits = find_token_seq(sf, lo_rw, hi_rw, texts)
+        if len(hits) != count:
+            raise ExtractError('%s: rewrite %s `%s` matches %d sites, expected %d (shape change)'
+                               % (spec.path, tag, orig, len(hits), count))
+        for h in hits:
+            h1 = h + len(texts) - 1
+            inside = [a for a in arms if a['b0'] <= h and h1 <= a['b1']]
+            if inside:
+                inside[0]['subs'].append((st[h].start, st[h1].end, new, tag))
+            elif any(a['p0'] <= h1 and h <= a['e'] for a in arms):
+                raise ExtractError('%s: rewrite %s straddles a split match arm' % (spec.path, tag))
+            else:
+                ed.rw(st[h].start, st[h1].end, new, tag)
+
+
 def emit_item(spec, log, vacuity=False):
     sf, chain = locate(spec.path)
     it = chain[-1]
@@ -352,6 +454,7 @@ def emit_item(spec, log, vacuity=False):
             for key in spec.sections:
                 if key not in used and key != 'pre':
                     raise ExtractError('%s: section %s not applicable to a declaration' % (spec.path, key))
+            apply_rws(sf, ed, spec, hdr_lo, it.last + 1)
             text = ed.render()
             log.append({'path': spec.path, 'file': sf.rel, 'start': start, 'end': end, 'sigonly': False,
                         'rewrites': sorted(set(e[3] for e in ed.ed if e[3])), 'line': sf.src.count('\n', 0, start) + 1})
@@ -419,14 +522,11 @@ def emit_item(spec, log, vacuity=False):
             ed.rw(st[it.last].start, st[it.last].end, '}', 'R4')
             used.add('spec')
             used.add('entry')
-    for tag, count, orig, new in spec.rws:
-        texts = plain_texts(orig)
-        hits = find_token_seq(sf, lo_rw, hi_rw, texts)
-        if len(hits) != count:
-            raise ExtractError('%s: rewrite %s `%s` matches %d sites, expected %d (shape change)'
-                               % (spec.path, tag, orig, len(hits), count))
-        for h in hits:
-            ed.rw(st[h].start, st[h + len(texts) - 1].end, new, tag)
+    arms = []
+    if 'splitarms' in spec.opts and is_fn and body_open is not None and 'sigonly' not in spec.opts:
+        arms = find_or_arms(sf, body_open + 1, it.last)
+    apply_rws(sf, ed, spec, lo_rw, hi_rw, arms)
+    render_or_arms(sf, ed, arms)
     for key in spec.sections:
         if key not in used and key != 'pre':
             raise ExtractError('%s: section %s not applicable to this item' % (spec.path, key))
@@ -471,7 +571,7 @@ def split_path_opts(rest):
     """'src/a.rs / impl X<A, B> / fn f props=C01 ret=r' -> (path, opts)"""
     words = rest.split()
     optwords = []
-    while words and (re.match(r'^(props|ret|name|hdr_rw)=', words[-1]) or words[-1] in ('sigonly', 'noloopcheck')):
+    while words and (re.match(r'^(props|ret|name|hdr_rw)=', words[-1]) or words[-1] in ('sigonly', 'noloopcheck', 'splitarms')):
         optwords.append(words.pop())
     return ' '.join(words), parse_opts(optwords)
 
